@@ -1,88 +1,113 @@
 package smt
 
+import "math/big"
+
 // Byte-lane recomposition: a word that is put together from the bytes of another word
-// (binary.LittleEndian.Uint64 over bytes written by PutUint64, unsafe views, ...) is that word.
+// (binary.LittleEndian.Uint64 over bytes written by PutUint64, unsafe views, page models ...) is
+// that word.
 
 type laneSrc struct {
-	x    *Term // source word
+	x    *Term // source word (nil = zero lane)
 	lane int   // which byte of x
 }
 
-// laneOfByte recognises  byte(x >> 8k)  (as built by Conv(U8, Shift(OShr, x, 8k)) or Conv(U8, x)).
-func laneOfByte(b *Term) (laneSrc, bool) {
-	if b.Op != OConv || b.Sort.W != 8 {
-		return laneSrc{}, false
+func byteIsZero(x *Term, lane int) bool {
+	// byte `lane` of a non-negative value below 2^(8*lane) is zero
+	if x.Lo.Sign() < 0 {
+		return false
 	}
-	in := b.Args[0]
-	if in.Sort.K != KInt {
-		return laneSrc{}, false
-	}
-	if in.Op == OShr && in.Args[1].IsConst() && in.Args[1].K%8 == 0 && !in.Sort.Signed {
-		return laneSrc{in.Args[0], int(in.Args[1].K / 8)}, true
-	}
-	return laneSrc{in, 0}, true
+	return x.Hi.Cmp(new(big.Int).Lsh(bigOne, uint(8*lane))) < 0
 }
 
-// lanes returns, for a w-bit term built by or-ing shifted zero-extended bytes, the byte term of every lane
-// (nil = zero lane).
-func (c *Ctx) lanes(t *Term, depth int) ([]*Term, bool) {
+func normLane(ls laneSrc) laneSrc {
+	if ls.x != nil && (ls.lane >= int(ls.x.Sort.W)/8 || byteIsZero(ls.x, ls.lane)) {
+		return laneSrc{}
+	}
+	return ls
+}
+
+// lanes returns for a w-bit unsigned-interpreted term the source of each of its bytes.
+func (c *Ctx) lanes(t *Term, depth int) ([]laneSrc, bool) {
 	n := int(t.Sort.W) / 8
-	if t.Sort.K != KInt || n == 0 || depth > 20 {
+	if t.Sort.K != KInt || n == 0 || depth > 24 {
 		return nil, false
+	}
+	atom := func() ([]laneSrc, bool) {
+		if t.Sort.Signed && t.Lo.Sign() < 0 {
+			return nil, false
+		}
+		l := make([]laneSrc, n)
+		for i := range l {
+			l[i] = normLane(laneSrc{t, i})
+		}
+		return l, true
 	}
 	switch t.Op {
 	case OConst:
 		if t.K == 0 {
-			return make([]*Term, n), true
+			return make([]laneSrc, n), true
 		}
 		return nil, false
 	case OConv:
 		in := t.Args[0]
-		if in.Sort.K == KInt && in.Sort.W == 8 && !in.Sort.Signed {
-			l := make([]*Term, n)
-			l[0] = in
-			return l, true
-		}
-		if in.Sort.K == KInt && !in.Sort.Signed && in.Sort.W < t.Sort.W {
-			// zero extension of a narrower composed word
-			li, ok := c.lanes(in, depth+1)
-			if !ok {
-				return nil, false
-			}
-			l := make([]*Term, n)
-			copy(l, li)
-			return l, true
-		}
-		return nil, false
-	case OShl:
-		if !t.Args[1].IsConst() || t.Args[1].K%8 != 0 {
+		if in.Sort.K != KInt {
 			return nil, false
+		}
+		if in.Sort.Signed && in.Lo.Sign() < 0 {
+			return atom()
+		}
+		li, ok := c.lanes(in, depth+1)
+		if !ok {
+			return atom()
+		}
+		l := make([]laneSrc, n)
+		for i := 0; i < n && i < len(li); i++ {
+			l[i] = li[i]
+		}
+		return l, true
+	case OShr:
+		if !t.Args[1].IsConst() || t.Args[1].K%8 != 0 || (t.Sort.Signed && t.Args[0].Lo.Sign() < 0) {
+			return atom()
 		}
 		k := int(t.Args[1].K / 8)
 		li, ok := c.lanes(t.Args[0], depth+1)
 		if !ok {
-			return nil, false
+			return atom()
 		}
-		l := make([]*Term, n)
+		l := make([]laneSrc, n)
+		for i := 0; i+k < n; i++ {
+			l[i] = li[i+k]
+		}
+		return l, true
+	case OShl:
+		if !t.Args[1].IsConst() || t.Args[1].K%8 != 0 {
+			return atom()
+		}
+		k := int(t.Args[1].K / 8)
+		li, ok := c.lanes(t.Args[0], depth+1)
+		if !ok {
+			return atom()
+		}
+		l := make([]laneSrc, n)
 		for i := 0; i+k < n; i++ {
 			l[i+k] = li[i]
 		}
 		return l, true
-	case OOr, OAdd, OXor:
+	case OOr, OXor:
 		la, ok := c.lanes(t.Args[0], depth+1)
 		if !ok {
-			return nil, false
+			return atom()
 		}
 		lb, ok := c.lanes(t.Args[1], depth+1)
 		if !ok {
-			return nil, false
+			return atom()
 		}
-		l := make([]*Term, n)
+		l := make([]laneSrc, n)
 		for i := 0; i < n; i++ {
 			switch {
-			case la[i] != nil && lb[i] != nil:
-				return nil, false
-			case la[i] != nil:
+			case la[i].x != nil && lb[i].x != nil:
+				return atom()
+			case la[i].x != nil:
 				l[i] = la[i]
 			default:
 				l[i] = lb[i]
@@ -90,10 +115,10 @@ func (c *Ctx) lanes(t *Term, depth int) ([]*Term, bool) {
 		}
 		return l, true
 	}
-	return nil, false
+	return atom()
 }
 
-// recompose returns x when t is exactly the little-endian concatenation of all bytes of x.
+// recompose returns x when t is exactly the little-endian concatenation of the bytes of x.
 func (c *Ctx) recompose(t *Term) *Term {
 	l, ok := c.lanes(t, 0)
 	if !ok {
@@ -101,23 +126,34 @@ func (c *Ctx) recompose(t *Term) *Term {
 	}
 	var src *Term
 	for i, b := range l {
-		if b == nil {
-			return nil
+		if b.x == nil {
+			continue
 		}
-		ls, ok := laneOfByte(b)
-		if !ok || ls.lane != i {
+		if b.lane != i {
 			return nil
 		}
 		if src == nil {
-			src = ls.x
-		} else if src != ls.x {
+			src = b.x
+		} else if src != b.x {
 			return nil
 		}
 	}
-	if src == nil || src.Sort.W != t.Sort.W {
+	if src == nil || src == t {
+		return nil
+	}
+	// zero lanes must be zero bytes of src as well
+	for i, b := range l {
+		if b.x == nil && normLane(laneSrc{src, i}).x != nil {
+			return nil
+		}
+	}
+	if src.Sort.Signed && src.Lo.Sign() < 0 {
 		return nil
 	}
 	if src.Sort != t.Sort {
+		if src.Sort.W > t.Sort.W && !fits(t.Sort, src.Lo, src.Hi) {
+			return nil
+		}
 		return c.Conv(src, t.Sort)
 	}
 	return src
